@@ -256,8 +256,49 @@ def memcheck_task(task):
     return sh
 
 
+def memcheck_drv_task(task):
+    """hostile library requests through the driver of the uninstrumented build under memcheck, one process per batch"""
+    plaindir, seed, n = task
+    import random
+    rng = random.Random(seed)
+    sh = Shard()
+    cases = mk_requests(rng, n)
+    B = 250
+    for i in range(0, len(cases), B):
+        chunk = cases[i:i + B]
+        stdin = ("\n".join(c[1] for c in chunk) + "\nQ\n").encode("latin-1", "replace")
+        r = run(["valgrind", "-q", "--error-exitcode=97", "--track-origins=no", "--leak-check=no", "--num-callers=8",
+                 str(plaindir / "dutdrv")], stdin=stdin, cpu=300, wall=900, max_out=16 << 20)
+        sh.procs += 1
+        if r.timed_out or r.cpu_exceeded:
+            sh.extra["inconclusive_memcheck_timeouts"] += 1
+            continue
+        errs = list(_VG.finditer(r.err or b""))
+        answered = r.out.count(b"\n")
+        if not errs and r.rc != 97:
+            sh.ok("memcheck", ("memcheck", "dutdrv", "clean"), n=answered)
+            continue
+        seen = set()
+        for m in errs or [None]:
+            if m is None:
+                kind, fn = "error", "?"
+            else:
+                kind = m.group(1).decode("latin-1").split(" of size")[0].replace(" ", "-")[:48]
+                fns = [g.decode("latin-1") for g in (m.group(2), m.group(3)) if g]
+                fn = next((f for f in fns if not f.startswith(("__GI", "str", "mem", "_IO", "vfprintf", "printf", "fwrite", "puts"))),
+                          fns[0] if fns else "?")
+            if (kind, fn) in seen:
+                continue
+            seen.add((kind, fn))
+            sh.bad("memcheck", "memcheck:dutdrv:%s@%s" % (kind, fn), "valgrind memcheck: %s in %s during a batch of %d driver "
+                   "requests" % (kind, fn, len(chunk)),
+                   dict(argv=["valgrind", "-q", str(plaindir / "dutdrv")], stdin=stdin.decode("latin-1")[:200000], variant="plain",
+                        stderr=(r.err or b"")[:4000].decode("latin-1")), cls=("memcheck", "dutdrv", kind))
+    return sh
+
+
 def _dispatch(t):
-    return drv_task(t[1]) if t[0] == "drv" else tool_task(t[1]) if t[0] == "tool" else memcheck_task(t[1])
+    return {"drv": drv_task, "tool": tool_task, "vg": memcheck_task, "vgdrv": memcheck_drv_task}[t[0]](t[1])
 
 
 def main(tier, seed):
@@ -274,6 +315,8 @@ def main(tier, seed):
         plaindir = ctx.bin("plain")
         for i in range(16 if quick else 160):
             tasks.append(("vg", (plaindir, seed * 1000003 + 9000 + i, 25 if quick else 60)))
+        for i in range(16 if quick else 96):
+            tasks.append(("vgdrv", (plaindir, seed * 1000003 + 12000 + i, 500 if quick else 1500)))
     for sh in core.pmap(_dispatch, tasks):
         ctx.merge(sh)
     ctx.rule = ("events = one library call through dutdrv (dt_strpdt, dt_strfdt with output buffers of every size class "
@@ -283,7 +326,7 @@ def main(tier, seed):
                 "255/256/257-byte formats, random bytes, high-bit first byte, special names off by one; texts truncated, "
                 "overlong digit runs, +-2^31/2^63, control bytes, out-of-range fields. Monitors: ASan/UBSan/probe "
                 "reports, death signals, CPU limit, output cap, return value <= buffer size, environment canary must "
-                "not appear in any output; 'memcheck' = a sample of the same hostile tool invocations on the uninstrumented -O2 "
+                "not appear in any output; 'memcheck' = a sample of the same hostile tool invocations and driver requests on the uninstrumented -O2 "
                 "build under valgrind memcheck (uninitialised-value use, invalid accesses inside live blocks' neighbourhood, "
                 "overlapping copies). distinct_nontrivial = distinct (entry point, input class, outcome)")
     ctx.assumptions = ["argv strings cannot contain NUL; NUL bytes reach the library through dutdrv only",
